@@ -318,4 +318,122 @@ theorem renamePairs_fresh (db : Box S V) (pairs : List (String × String))
 
 end
 
+
+theorem lookup_setKey {α : Type} (db : List (String × α)) (k n : String) (v : α) :
+    lookup (setKey db k v) n = if k = n then some v else lookup db n := by
+  induction db with
+  | nil => simp [setKey, lookup]
+  | cons p rest ih =>
+    obtain ⟨k', v'⟩ := p
+    unfold setKey
+    by_cases h : k' = k
+    · subst h
+      by_cases h2 : k' = n
+      · simp [lookup, h2]
+      · simp [lookup, h2]
+    · simp only [h, if_false, lookup]
+      by_cases h2 : k' = n
+      · subst h2; simp [Ne.symm h]
+      · simp [h2, ih]
+
+theorem lookup_delKey_self {α : Type} (db : List (String × α)) (k : String) : lookup (delKey db k) k = none := by
+  unfold delKey
+  have := lookup_filter_key (fun x => decide (x ≠ k)) db k
+  simpa using this
+
+section
+variable {S V : Type}
+
+/-- **when overlay / underlay / prepend apply to a name**: exactly when both items are series, the own series has a known
+frequency and the two frequencies are equal -- whatever that frequency is (the integer frequency like any other) -/
+theorem layAct_apply_iff (o : SOps S) (db other : Box S V) (n : String) :
+    layAct o db other n = .apply ↔
+      ∃ s t, lookup db n = some (.ser s) ∧ lookup other n = some (.ser t) ∧ o.freq s ≠ .U ∧ o.freq s = o.freq t := by
+  unfold layAct
+  constructor
+  · intro h
+    cases hl : lookup db n with
+    | none => simp [hl] at h
+    | some it =>
+      cases it with
+      | ser s =>
+        simp only [hl] at h
+        by_cases hU : o.freq s = .U
+        · simp [hU] at h
+        · simp only [hU, if_false] at h
+          cases ho : lookup other n with
+          | none => simp [ho] at h
+          | some jt =>
+            cases jt with
+            | ser t =>
+              simp only [ho] at h
+              by_cases hf : o.freq s = o.freq t
+              · exact ⟨s, t, rfl, rfl, hU, hf⟩
+              · simp [hf] at h
+            | scalar v => simp [ho] at h
+            | list l => simp [ho] at h
+      | scalar v => simp [hl] at h
+      | list l => simp [hl] at h
+  · rintro ⟨s, t, h1, h2, h3, h4⟩
+    have h3' : o.freq t ≠ .U := h4 ▸ h3
+    simp [h1, h2, h4, h3']
+
+/-- **rename onto an existing name** (the sequential semantics of `self[t] = self.pop(s)`): the source disappears, the target keeps
+its place in the dictionary and is re-bound to the source's value (its old value is lost), every other binding is unchanged -/
+theorem rename_onto_existing (db : Box S V) (s t : String) (v : Item S V) (hs : lookup db s = some v) (hst : s ≠ t) :
+    renamePairs db [(s, t)] = .ok (setKey (delKey db s) t v)
+      ∧ lookup (setKey (delKey db s) t v) t = some v
+      ∧ lookup (setKey (delKey db s) t v) s = none
+      ∧ ∀ n, n ≠ s → n ≠ t → lookup (setKey (delKey db s) t v) n = lookup db n := by
+  refine ⟨by simp [renamePairs, hs, pure, Except.pure], by simp [lookup_setKey], ?_, ?_⟩
+  · rw [lookup_setKey, if_neg (Ne.symm hst), lookup_delKey_self]
+  · intro n h1 h2
+    rw [lookup_setKey, if_neg (Ne.symm h2), lookup_delKey_ne _ _ _ h1]
+
+/-- what `merge` binds a name to, given the old binding and the incoming one -/
+def mergeSpec (o : SOps S) (st : Strategy) (old : Option (Item S V)) (new : Option (Item S V)) : Option (Item S V) :=
+  match new, old with
+  | none, x => x
+  | some v, none => some v
+  | some v, some w => mergeExisting o st w v
+
+/-- **merge, as a dictionary equation** (one incoming databox): every name is bound to `mergeSpec` of its old and its incoming
+binding -- new names take the incoming value, existing names the strategy's result, names not in the incoming databox stay -/
+theorem mergeOne_lookup (o : SOps S) (st : Strategy) (t : Box S V) (ht : (keys t).Nodup) (db r : Box S V) (dup : Bool)
+    (h : mergeOne o st db t = .ok (r, dup)) (k : String) :
+    lookup r k = mergeSpec o st (lookup db k) (lookup t k) := by
+  induction t generalizing db dup with
+  | nil => simp [mergeOne, pure, Except.pure] at h; rw [← h.1]; simp [mergeSpec, lookup]
+  | cons p rest ih =>
+    obtain ⟨k0, v0⟩ := p
+    simp only [keys, List.map_cons, List.nodup_cons] at ht
+    have hk0 : lookup rest k0 = none := lookup_none_of_not_mem rest k0 ht.1
+    unfold mergeOne at h
+    cases hl : lookup db k0 with
+    | none =>
+      simp only [hl] at h
+      rw [ih ht.2 _ _ h, lookup_append]
+      by_cases hk : k0 = k
+      · subst hk; simp [hl, hk0, lookup, mergeSpec]
+      · simp only [lookup, hk, if_false]
+        cases hd : lookup db k <;> simp
+    | some old =>
+      simp only [hl] at h
+      cases hm : mergeExisting o st old v0 with
+      | none => simp [hm, throw, throwThe, MonadExceptOf.throw] at h
+      | some w =>
+        simp only [hm] at h
+        cases hr : mergeOne o st (setKey db k0 w) rest with
+        | error e => simp [hr, bind, Except.bind] at h
+        | ok x =>
+          obtain ⟨r1, d1⟩ := x
+          simp [hr, bind, Except.bind, pure, Except.pure] at h
+          obtain ⟨rfl, _⟩ := h
+          rw [ih ht.2 _ _ hr, lookup_setKey]
+          by_cases hk : k0 = k
+          · subst hk; simp [hl, hk0, lookup, mergeSpec, hm]
+          · simp [lookup, hk]
+
+end
+
 end IrisVerif.Databox
